@@ -1,3 +1,285 @@
-/- Property theorems for C04 — to be filled in. -/
+/-
+  C04 — a stage starts exactly once even when workers race.
+
+  Model: `Stab.ClaimProtocol` (Model/ClaimProtocol.lean): any number of StartStage(j) handlers, CompleteStage(uᵢ)
+  handlers (with their `_update_join_tracking` write into j) and persistent-SignalStage(j) handlers, interleaved by an
+  ARBITRARY schedule at the granularity of single reads / whole transactions.  All theorems quantify over every
+  configuration (join type, threshold, predefined tasks or not, fix applied or not unless stated), every list of
+  upstream rows, every list of workers at their initial program counter and every schedule.
+
+  Safety (holds for the code as found and with the fix):
+    `claim_unique`, `plan_unique`, `tasks_started_once`, `join_fired_once`, `fired_blocks_later_start`,
+    `downstream_triggered_once`, `zombie_takeover_single_plan` (example).
+  Progress:
+    `someone_plans`                    — WITH proposed_fixes/F6.diff (`fix = true`): unconditional.
+    `someone_plans_undisturbed`        — code as found: only if no non-claim write hit the row while a StartStage handler
+                                         was between its row read and its plan commit.
+    `someone_plans_counterexample_*`   — code as found: the unrestricted statement is FALSE (finding F6); the three
+                                         witnesses are replayed against the implementation by harness/props/c04.py.
+-/
+import Stab.Lemmas.ClaimProtocol
+
 namespace Stab.Props.C04
+open Stab Stab.ClaimProtocol
+
+/-- legal initial configuration: no StartStage(j) batch pushed yet, every worker at its initial program counter -/
+def Initial (ups : List URow) (ws : List W) : Prop :=
+  (∀ u ∈ ups, u.pushes = 0) ∧ (∀ w ∈ ws, w.isInitial = true)
+
+theorem reach_inv (c : Cfg) {ups : List URow} {ws : List W} (h : Initial ups ws) (sched : List Nat) :
+    Inv (run (init c ups ws) sched) :=
+  run_inv (init_inv c ups ws h.1 h.2) sched
+
+/-- **claim_unique.** In every interleaving at most one claim transaction commits the NOT_STARTED → RUNNING change. -/
+theorem claim_unique (c : Cfg) {ups : List URow} {ws : List W} (h : Initial ups ws) (sched : List Nat) :
+    (run (init c ups ws) sched).claimCommits ≤ 1 := by
+  have := (reach_inv c h sched).jok.claims
+  split at this <;> omega
+
+/-- **plan_unique.** At most one plan transaction commits — including every zombie take-over interleaving
+    (RUNNING → RUNNING re-claims are counted in `reclaimCommits`, not bounded, and never yield a second plan). -/
+theorem plan_unique (c : Cfg) {ups : List URow} {ws : List W} (h : Initial ups ws) (sched : List Nat) :
+    (run (init c ups ws) sched).planCommits ≤ 1 := by
+  have := (reach_inv c h sched).jok.plans
+  split at this <;> omega
+
+/-- **tasks_started_once.** StartTask is pushed exactly as often as a plan commits, hence at most once. -/
+theorem tasks_started_once (c : Cfg) {ups : List URow} {ws : List W} (h : Initial ups ws) (sched : List Nat) :
+    (run (init c ups ws) sched).startTasks = (run (init c ups ws) sched).planCommits ∧
+    (run (init c ups ws) sched).startTasks ≤ 1 := by
+  have h4 := (reach_inv c h sched).jok.starts
+  have := plan_unique c h sched
+  exact ⟨h4, by omega⟩
+
+/-- a plan only ever commits on a claimed row, and the claim is the unique one -/
+theorem plan_needs_claim (c : Cfg) {ups : List URow} {ws : List W} (h : Initial ups ws) (sched : List Nat) :
+    (run (init c ups ws) sched).planCommits ≤ (run (init c ups ws) sched).claimCommits := by
+  have inv := (reach_inv c h sched).jok
+  have h1 := inv.claims
+  have h3 := inv.plans
+  have h2 := inv.planned_running
+  split at h3
+  · rename_i hp
+    have := h2 hp
+    rw [this] at h1; simp at h1; omega
+  · omega
+
+/-- **join_fired_once.** `_join_fired` is on the row iff the join fires and THE plan committed: it is written by exactly
+    one claimant. -/
+theorem join_fired_once (c : Cfg) {ups : List URow} {ws : List W} (h : Initial ups ws) (sched : List Nat) :
+    (run (init c ups ws) sched).j.fired = true ↔
+      (c.fires = true ∧ (run (init c ups ws) sched).planCommits = 1) := by
+  have inv := (reach_inv c h sched).jok
+  have h6 := inv.fired
+  have h3 := inv.plans
+  rw [run_cfg, show (init c ups ws).cfg = c from rfl] at h6
+  rw [h6]
+  cases hp : (run (init c ups ws) sched).j.planned <;> simp [hp] at h3 ⊢ <;> omega
+
+theorem upStatuses_length (ups : List URow) : (upStatuses ups).length = ups.length := by
+  simp [upStatuses]
+
+/-- **fired ⇒ NOT_READY.** A StartStage delivery whose row read saw `_join_fired` (DISCRIMINATOR, or N_OF_M with a
+    positive threshold, at least one upstream) ends NOT_READY without touching anything. -/
+theorem fired_blocks_later_start (s : St) (i : Nat) (st : JStatus) (v : Nat) (hh : Bool)
+    (hw : s.ws[i]? = some (.sUps st v true hh)) (hups : s.ups ≠ [])
+    (hj : s.cfg.join = .discriminator ∨ (s.cfg.join = .nOfM ∧ 0 < s.cfg.threshold)) :
+    step s i = { s with ws := s.ws.set i (.done .notReady) } := by
+  have hne : (upStatuses s.ups).isEmpty = false := by
+    cases hu : s.ups with
+    | nil => exact absurd hu hups
+    | cons a t => simp [upStatuses]
+  rw [step_some hw]
+  have : readiness s.cfg true s.ups = .notReady := by
+    rcases hj with hd | ⟨hn, ht⟩
+    · simp [readiness, Ready.evaluate, hne, hd, Ready.discriminator]
+    · have : ¬ s.cfg.threshold ≤ 0 := by omega
+      simp [readiness, Ready.evaluate, hne, hn, Ready.nOfM, this]
+  simp [stepW, this]
+
+/-- **downstream_triggered_once.** However many CompleteStage(uᵢ) handlers race (duplicates, redeliveries, retries after
+    a lost CAS), each upstream pushes its StartStage batch at most once. -/
+theorem downstream_triggered_once (c : Cfg) {ups : List URow} {ws : List W} (h : Initial ups ws) (sched : List Nat) :
+    ∀ u ∈ (run (init c ups ws) sched).ups, u.pushes ≤ 1 := by
+  intro u hu
+  obtain ⟨k, hk⟩ := List.mem_iff_getElem?.mp hu
+  rcases (reach_inv c h sched).jok.ups k u hk with h0 | ⟨h1, _⟩ <;> omega
+
+/-- … and an upstream that pushed its batch is SUCCEEDED -/
+theorem pushed_is_succeeded (c : Cfg) {ups : List URow} {ws : List W} (h : Initial ups ws) (sched : List Nat) :
+    ∀ u ∈ (run (init c ups ws) sched).ups, u.pushes = 1 → u.status = .succeeded := by
+  intro u hu h1
+  obtain ⟨k, hk⟩ := List.mem_iff_getElem?.mp hu
+  rcases (reach_inv c h sched).jok.ups k u hk with h0 | ⟨_, hs⟩
+  · omega
+  · exact hs
+
+/-! ### progress -/
+
+/-- **someone_plans (with the fix).** If every handler ran to completion and at least one StartStage handler saw READY and
+    went for the claim, then exactly one plan committed — whatever non-claim writers did in between. -/
+theorem someone_plans (c : Cfg) (hfix : c.fix = true) {ups : List URow} {ws : List W} (h : Initial ups ws)
+    (sched : List Nat) (hdone : allDone (run (init c ups ws) sched) = true)
+    (hatt : (run (init c ups ws) sched).attempted = true) :
+    (run (init c ups ws) sched).planCommits = 1 := by
+  have inv := reach_inv c h sched
+  have live := run_live (init_inv c ups ws h.1 h.2) (by simpa [init] using hfix) (init_live c ups ws) sched
+  generalize run (init c ups ws) sched = s at *
+  have hplanned : s.j.planned = true := by
+    cases hst : s.j.status with
+    | notStarted =>
+      obtain ⟨i, w, hw, hp⟩ := live.l1 hatt hst
+      rw [(done_not_pending (allDone_get hdone hw)).1] at hp; cases hp
+    | running =>
+      cases hpl : s.j.planned with
+      | true => rfl
+      | false =>
+        obtain ⟨i, w, hw, hp⟩ := live.l2 hst hpl
+        rw [(done_not_pending (allDone_get hdone hw)).2.1] at hp; cases hp
+  have := inv.jok.plans
+  simpa [hplanned] using this
+
+/-- **someone_plans (code as found), restricted.** The same conclusion needs the hypothesis that no non-claim write
+    (persistent-signal buffering, `_update_join_tracking`) committed on the row while a StartStage handler was between its
+    row read and its plan commit (`disturbed = false`). Holds with and without the fix. -/
+theorem someone_plans_undisturbed (c : Cfg) {ups : List URow} {ws : List W} (h : Initial ups ws)
+    (sched : List Nat) (hdone : allDone (run (init c ups ws) sched) = true)
+    (hatt : (run (init c ups ws) sched).attempted = true)
+    (hcalm : (run (init c ups ws) sched).disturbed = false) :
+    (run (init c ups ws) sched).planCommits = 1 := by
+  have inv := reach_inv c h sched
+  have calm := run_calm (init_inv c ups ws h.1 h.2) (init_calm c ups ws h.2) sched
+  generalize run (init c ups ws) sched = s at *
+  have hplanned : s.j.planned = true := by
+    cases hst : s.j.status with
+    | notStarted =>
+      obtain ⟨i, w, hw, hp⟩ := calm.u1 hatt hst hcalm
+      rw [(done_not_pending (allDone_get hdone hw)).2.2.1] at hp; cases hp
+    | running =>
+      cases hpl : s.j.planned with
+      | true => rfl
+      | false =>
+        obtain ⟨i, w, hw, hp⟩ := calm.u2 hst hpl hcalm
+        rw [(done_not_pending (allDone_get hdone hw)).2.2.2] at hp; cases hp
+  have := inv.jok.plans
+  simpa [hplanned] using this
+
+/-- only StartStage handlers ⇒ never disturbed -/
+def W.isStart : W → Bool
+  | .cIdle _ | .cRow .. | .cTrack .. | .cTrackTxn .. | .cTxn .. | .gIdle | .gTxn _ => false
+  | _ => true
+
+theorem stepW_start (s : St) (i : Nat) (w : W) (hw : W.isStart w = true) :
+    W.isStart (stepW s i w).2 = true ∧ (stepW s i w).1.disturbed = s.disturbed := by
+  cases w <;> simp only [stepW, decideStart] <;> (repeat' split) <;> simp [W.isStart] at *
+
+theorem run_start_only {s : St} (hs : ∀ (i : Nat) (w : W), s.ws[i]? = some w → W.isStart w = true) (sched : List Nat) :
+    (run s sched).disturbed = s.disturbed := by
+  induction sched generalizing s with
+  | nil => rfl
+  | cons i rest ih =>
+    show (run (step s i) rest).disturbed = s.disturbed
+    cases hw : s.ws[i]? with
+    | none => rw [step_none hw]; exact ih hs
+    | some w =>
+      have hst := stepW_start s i w (hs i w hw)
+      have hstep : step s i = { (stepW s i w).1 with ws := s.ws.set i (stepW s i w).2 } := step_some hw
+      rw [ih (s := step s i)]
+      · rw [hstep]; exact hst.2
+      · intro k u hk
+        rw [hstep] at hk
+        by_cases hki : k = i
+        · subst hki
+          rw [show ({ (stepW s k w).1 with ws := s.ws.set k (stepW s k w).2 } : St).ws = s.ws.set k (stepW s k w).2 from rfl,
+              getElem?_set_self' hw] at hk
+          cases hk; exact hst.1
+        · rw [show ({ (stepW s i w).1 with ws := s.ws.set i (stepW s i w).2 } : St).ws = s.ws.set i (stepW s i w).2 from rfl,
+              getElem?_set_ne' hki] at hk
+          exact hs k u hk
+
+/-- **someone_plans without foreign writers** (code as found): racing StartStage handlers alone always get the stage planned. -/
+theorem someone_plans_no_foreign (c : Cfg) {ups : List URow} (n : Nat) (hups : ∀ u ∈ ups, u.pushes = 0) (sched : List Nat)
+    (hdone : allDone (run (init c ups (List.replicate n .sIdle)) sched) = true)
+    (hatt : (run (init c ups (List.replicate n .sIdle)) sched).attempted = true) :
+    (run (init c ups (List.replicate n .sIdle)) sched).planCommits = 1 := by
+  have hws : ∀ w ∈ List.replicate n W.sIdle, w.isInitial = true := by
+    intro w hw; rw [List.eq_of_mem_replicate hw]; rfl
+  refine someone_plans_undisturbed c ⟨hups, hws⟩ sched hdone hatt ?_
+  rw [run_start_only]
+  · rfl
+  · intro i w hw
+    have : w ∈ List.replicate n W.sIdle := List.mem_of_getElem? hw
+    rw [List.eq_of_mem_replicate this]; rfl
+
+/-! ### the unrestricted statement is false of the code as found (finding F6) -/
+
+def upsDone : List URow := [⟨.succeeded, 6, 0⟩, ⟨.succeeded, 6, 0⟩]
+
+/-- **F6a.** One StartStage(j) handler (all upstream SUCCEEDED, AND join) and one persistent SignalStage(j): the signal is
+    buffered between the handler's read and its claim; the claim CAS fails; the handler returns; everybody is done;
+    nothing was planned and the row is still NOT_STARTED. -/
+theorem someone_plans_counterexample_signal_before_claim :
+    let s := run (init { fix := false } upsDone [.sIdle, .gIdle]) [0, 0, 0, 0, 1, 1, 0]
+    allDone s = true ∧ s.attempted = true ∧ s.planCommits = 0 ∧ s.j.status = .notStarted ∧ s.disturbed = true := by
+  decide
+
+/-- **F6b.** Same workers, the signal lands between the claim commit and the plan commit: the plan CAS fails, the handler
+    returns; the row is RUNNING, no StartTask was ever pushed. -/
+theorem someone_plans_counterexample_signal_before_plan :
+    let s := run (init { fix := false } upsDone [.sIdle, .gIdle]) [0, 0, 0, 0, 0, 1, 1, 0, 0]
+    allDone s = true ∧ s.attempted = true ∧ s.planCommits = 0 ∧ s.j.status = .running ∧ s.startTasks = 0 := by
+  decide
+
+/-- **F6c — C04's own scenario.** DISCRIMINATOR join, u₀ finished, u₁ finishing: StartStage(j) (pushed by u₀) claims j;
+    CompleteStage(u₁)'s `_update_join_tracking` writes `_completed_branches` into j before the plan commit; the plan CAS
+    fails and is swallowed.  (CompleteStage(u₁) then pushes another StartStage(j), which finds j RUNNING with tasks and is
+    ignored — see the replay.) -/
+theorem someone_plans_counterexample_join_tracking :
+    let s := run (init { join := .discriminator, fix := false } [⟨.succeeded, 6, 0⟩, ⟨.running, 5, 0⟩] [.sIdle, .cIdle 1, .sIdle])
+      [0, 0, 0, 0, 0, 1, 1, 1, 1, 1, 0, 0, 2, 2, 2, 2]
+    allDone s = true ∧ s.attempted = true ∧ s.planCommits = 0 ∧ s.j.status = .running ∧ s.claimCommits = 1 := by
+  decide
+
+/-- hence the unrestricted `someone_plans` is false without the fix -/
+theorem someone_plans_false_without_fix :
+    ¬ ∀ (c : Cfg) (ups : List URow) (ws : List W), Initial ups ws → ∀ sched : List Nat,
+        allDone (run (init c ups ws) sched) = true → (run (init c ups ws) sched).attempted = true →
+        (run (init c ups ws) sched).planCommits = 1 := by
+  intro h
+  have := h { fix := false } upsDone [.sIdle, .gIdle] ⟨by decide, by decide⟩ [0, 0, 0, 0, 1, 1, 0] (by decide) (by decide)
+  revert this
+  decide
+
+/-! ### non-vacuity -/
+
+/-- the same three schedules WITH the fix end with exactly one plan (the loser re-reads and retries) -/
+example :
+    let s := run (init { fix := true } upsDone [.sIdle, .gIdle]) [0, 0, 0, 0, 1, 1, 0, 0, 0, 0, 0, 0, 0]
+    allDone s = true ∧ s.attempted = true ∧ s.planCommits = 1 ∧ s.j.buffered = 1 := by decide
+
+example :
+    let s := run (init { join := .discriminator, fix := true } [⟨.succeeded, 6, 0⟩, ⟨.running, 5, 0⟩] [.sIdle, .cIdle 1, .sIdle])
+      [0, 0, 0, 0, 0, 1, 1, 1, 1, 1, 0, 0, 0, 0, 0, 2, 2, 2, 2]
+    allDone s = true ∧ s.attempted = true ∧ s.planCommits = 1 ∧ s.j.fired = true ∧ s.j.branches = [1] := by decide
+
+/-- zombie take-over (no predefined tasks): A claims, Z sees RUNNING without tasks and re-claims, A's plan CAS fails,
+    Z plans: one plan, one StartTask, one NOT_STARTED → RUNNING claim, one re-claim -/
+theorem zombie_takeover_single_plan :
+    let s := run (init { predefined := false, fix := false } upsDone [.sIdle, .sIdle])
+      [0, 0, 0, 0, 0, 1, 1, 1, 1, 1, 1, 0, 0, 1, 1]
+    allDone s = true ∧ s.planCommits = 1 ∧ s.startTasks = 1 ∧ s.claimCommits = 1 ∧ s.reclaimCommits = 1 := by
+  decide
+
+/-- two racing StartStage handlers reading before either claims: one plans, the other loses the claim -/
+example :
+    let s := run (init { fix := false } upsDone [.sIdle, .sIdle]) [0, 1, 0, 1, 0, 1, 0, 1, 0, 1, 0, 0]
+    allDone s = true ∧ s.claimCommits = 1 ∧ s.planCommits = 1 ∧ s.disturbed = false := by decide
+
+/-- two CompleteStage(u₁) racing: one completes, the other finds the row changed and then no longer RUNNING -/
+example :
+    let s := run (init {} [⟨.succeeded, 6, 0⟩, ⟨.running, 5, 0⟩] [.cIdle 1, .cIdle 1]) [0, 1, 0, 1, 0, 1, 1]
+    allDone s = true ∧ s.ups.map (·.pushes) = [0, 1] := by decide
+
+example : Initial upsDone [.sIdle, .gIdle, .cIdle 1] := ⟨by decide, by decide⟩
+
 end Stab.Props.C04
